@@ -4,8 +4,8 @@
    are proofs about what the tree's typechecker and emitter do NOW.
 
    (1) tie of the hand-written model (Promote.v) to the tables: cell-by-cell agreement;
-   (2) the property statements of C11 about typing and opcode selection; where the pinned
-       tree violates one, the violation is proved (`_refuted`, with the cell as witness) next to
+   (2) the property statements of C11 about typing and opcode selection; where the tree
+       violates one, the violation is proved (`_refuted`, with the cell as witness) next to
        the statement restricted to the remaining cells (`_partial`). *)
 From Coq Require Import ZArith Bool List String.
 From NV Require Import Arith.NumTy Arith.Promote Gen.ConvTables Gen.OpSelect.
@@ -214,34 +214,15 @@ Definition ass_cell_ok (l r : ty) : bool :=
   | _, _ => false
   end.
 
-Definition assignment_statement : Prop :=
+Lemma ass_cells_ok : forallb (fun l => forallb (fun r => ass_cell_ok l r) num_ty) num_ty = true.
+Proof. vm_compute. reflexivity. Qed.
+
+Theorem assignment_converts_to_left :
   forall l r, is_num l = true -> is_num r = true -> ass_cell_ok l r = true.
-
-Theorem assignment_converts_to_left_refuted :
-  exists l r, is_num l = true /\ is_num r = true /\ ass_cell_ok l r = false.
-Proof. exists TInt, TDouble. vm_compute. repeat split. Qed.
-
-Corollary assignment_statement_fails : ~ assignment_statement.
 Proof.
-  intro H. destruct assignment_converts_to_left_refuted as (l & r & Hl & Hr & Hf).
-  rewrite (H l r Hl Hr) in Hf. discriminate.
+  intros l r Hl Hr.
+  destruct l, r; try discriminate; vm_compute; reflexivity.
 Qed.
-
-(* the only failing cell is int <- double *)
-Theorem assignment_converts_to_left_partial :
-  forall l r, is_num l = true -> is_num r = true ->
-    (l, r) <> (TInt, TDouble) -> ass_cell_ok l r = true.
-Proof.
-  intros l r Hl Hr Hne.
-  destruct l, r; try discriminate; try (vm_compute; reflexivity).
-  exfalso. apply Hne. reflexivity.
-Qed.
-
-(* the int <- double cell in detail: DOUBLE_TO_INT is inserted, then OP_ASS_DOUBLE is used *)
-Theorem assignment_int_double_cell :
-  exists x y, find_ass TInt TDouble = Some x /\ find_assop TInt TDouble = Some y /\
-    ar_accepted x = true /\ ar_conv x = Some D2I /\ ao_emit y = EmitOp (VAss TDouble).
-Proof. eexists. eexists. vm_compute. repeat split. Qed.
 
 (* the opcode emitted for an operator is the operator's own opcode at the common operand type
    (bool and item-enum operands are ints at run time) *)
@@ -262,33 +243,11 @@ Definition opcode_cell_ok (y : binop_row) : bool :=
   | _, _ => true
   end.
 
-Definition opcode_statement : Prop := forall y, In y binop_table -> opcode_cell_ok y = true.
-
-Definition is_bool_neq (y : binop_row) : bool :=
-  binop_eqb (bo_op y) ONe && ty_eqb (bo_l y) TBool && ty_eqb (bo_r y) TBool.
-
-(* witness: `bool != bool` is emitted as OP_EQ_INT *)
-Theorem opcode_matches_type_refuted :
-  exists y, In y binop_table /\ is_bool_neq y = true /\ opcode_cell_ok y = false.
-Proof.
-  assert (H : existsb (fun y => is_bool_neq y && negb (opcode_cell_ok y)) binop_table = true)
-    by (vm_compute; reflexivity).
-  apply existsb_exists in H. destruct H as (y & Hin & Hy).
-  exists y. apply andb_true_iff in Hy. destruct Hy as [Hb Hy].
-  repeat split; try assumption. now apply negb_true_iff in Hy.
-Qed.
-
-Lemma opcode_ok_except_bool_neq :
-  forallb (fun y => is_bool_neq y || opcode_cell_ok y) binop_table = true.
+Lemma opcode_cells_ok : forallb opcode_cell_ok binop_table = true.
 Proof. vm_compute. reflexivity. Qed.
 
-Theorem opcode_matches_type_partial :
-  forall y, In y binop_table -> is_bool_neq y = false -> opcode_cell_ok y = true.
-Proof.
-  intros y Hin Hn.
-  pose proof (proj1 (forallb_forall _ binop_table) opcode_ok_except_bool_neq y Hin) as H.
-  cbn beta in H. rewrite Hn in H. exact H.
-Qed.
+Theorem opcode_matches_type : forall y, In y binop_table -> opcode_cell_ok y = true.
+Proof. exact (proj1 (forallb_forall opcode_cell_ok binop_table) opcode_cells_ok). Qed.
 
 (* unary operators: the opcode is the operator's own at the operand's run-time type *)
 Lemma unop_opcodes_ok :
